@@ -16,15 +16,11 @@ package lib
 import (
 	"encoding/json"
 	"fmt"
-	"net"
 	"net/netip"
 	"sort"
 	"strings"
-	"sync"
 	"testing"
-	"time"
 
-	pb "github.com/refraction-networking/conjure/proto"
 	"pgregory.net/rapid"
 	"verif/harness/vh"
 )
@@ -258,8 +254,10 @@ func TestVerif_C06_enum(t *testing.T) {
 // c06NoFatal lets an enumeration carry on after a violation and fail at the end.
 type c06NoFatal struct{ msgs []string }
 
-func (n *c06NoFatal) Fatalf(format string, a ...any) { n.msgs = append(n.msgs, fmt.Sprintf(format, a...)) }
-func (n *c06NoFatal) Helper()                        {}
+func (n *c06NoFatal) Fatalf(format string, a ...any) {
+	n.msgs = append(n.msgs, fmt.Sprintf(format, a...))
+}
+func (n *c06NoFatal) Helper() {}
 
 // ---- resolve ----------------------------------------------------------------------------------
 
@@ -300,366 +298,5 @@ func TestVerif_C06_resolve(t *testing.T) {
 		}
 		c := c06Case{Covert: name + ":" + port, Cfg: cfg, Script: sc, Labels: []string{"form:hostname"}}
 		c06Check(rt, rec, d, c)
-	})
-}
-
-// ---- ingest + dial ------------------------------------------------------------------------------
-
-var c06LoopIPs = []string{"127.0.0.1", "127.0.0.2", "127.0.0.3", "::1"}
-
-// c06DeadIPs are loopback addresses on which nothing listens at the listeners' port: a covert
-// pinned to one of them is admitted like any other, but the station's dial is refused. What the
-// station does after a failed dial is part of the property too (it must not go looking for another
-// address: no DNS query, no connection anywhere).
-var c06DeadIPs = []string{"127.0.0.4", "127.0.0.5"}
-
-type c06Accept struct {
-	Listener int
-	Remote   string
-}
-
-// c06Listeners are loopback listeners on one common port standing in for covert hosts.
-type c06Listeners struct {
-	lns    []net.Listener
-	port   int
-	events chan c06Accept
-	wg     sync.WaitGroup
-}
-
-func c06Listen(t *testing.T) *c06Listeners {
-	t.Helper()
-	var lastErr error
-	for try := 0; try < 50; try++ {
-		l0, err := net.Listen("tcp", "127.0.0.1:0")
-		if err != nil {
-			t.Fatalf("harness problem: cannot listen on loopback: %v", err)
-		}
-		ls := &c06Listeners{lns: []net.Listener{l0}, port: l0.Addr().(*net.TCPAddr).Port, events: make(chan c06Accept, 64)}
-		ok := true
-		for _, ip := range c06LoopIPs[1:] {
-			l, err := net.Listen("tcp", net.JoinHostPort(ip, fmt.Sprint(ls.port)))
-			if err != nil {
-				lastErr, ok = err, false
-				break
-			}
-			ls.lns = append(ls.lns, l)
-		}
-		for _, ip := range c06DeadIPs {
-			if !ok {
-				break
-			}
-			// nothing of anybody else's may listen there on this port
-			if c, err := net.DialTimeout("tcp", net.JoinHostPort(ip, fmt.Sprint(ls.port)), 5*time.Second); err == nil {
-				c.Close()
-				lastErr, ok = fmt.Errorf("something listens on %s:%d", ip, ls.port), false
-			}
-		}
-		if !ok {
-			for _, l := range ls.lns {
-				l.Close()
-			}
-			continue
-		}
-		for i, l := range ls.lns {
-			ls.wg.Add(1)
-			go func(i int, l net.Listener) {
-				defer ls.wg.Done()
-				for {
-					c, err := l.Accept()
-					if err != nil {
-						return
-					}
-					ls.events <- c06Accept{i, c.RemoteAddr().String()}
-					c.Close()
-				}
-			}(i, l)
-		}
-		t.Cleanup(func() {
-			for _, l := range ls.lns {
-				l.Close()
-			}
-			ls.wg.Wait()
-		})
-		return ls
-	}
-	t.Fatalf("harness problem: cannot get one port on all loopback addresses %v: %v", c06LoopIPs, lastErr)
-	return nil
-}
-
-// drain returns the connections accepted so far, per listener. It is a barrier, not a wait: the
-// harness connects to every listener itself and reads events until it has seen its own connection
-// on each; accept queues are FIFO, so everything that connected earlier has been reported by then.
-func (ls *c06Listeners) drain() (got []c06Accept, harness string) {
-	markers := map[string]bool{}
-	for i, l := range ls.lns {
-		c, err := net.Dial("tcp", l.Addr().String())
-		if err != nil {
-			return nil, fmt.Sprintf("marker dial to listener %d failed: %v", i, err)
-		}
-		markers[fmt.Sprintf("%d|%s", i, c.LocalAddr().String())] = true
-		defer c.Close()
-	}
-	deadline := time.After(20 * time.Second)
-	for len(markers) > 0 {
-		select {
-		case ev := <-ls.events:
-			k := fmt.Sprintf("%d|%s", ev.Listener, ev.Remote)
-			if markers[k] {
-				delete(markers, k)
-			} else {
-				got = append(got, ev)
-			}
-		case <-deadline:
-			return nil, "listener barrier did not complete within 20 s"
-		}
-	}
-	return got, ""
-}
-
-type c06IngestCase struct {
-	// Coverts are ingested in order as registrations of one client secret (a second entry is a
-	// repeated registration with another covert). "{P}" stands for the listeners' port.
-	Coverts []string  `json:"coverts"`
-	Cfg     c06Cfg    `json:"cfg"`
-	Script  c06Script `json:"script"`
-	V6      bool      `json:"v6_phantom"`
-	Labels  []string  `json:"labels,omitempty"`
-}
-
-func c06ResetRegistry(e *vEnv) {
-	old := e.rm.registeredDecoys
-	nr := NewRegisteredDecoys()
-	for k, v := range old.transports {
-		nr.transports[k] = v
-	}
-	nr.registerForDetector = old.registerForDetector
-	nr.updateInDetector = old.updateInDetector
-	e.rm.registeredDecoys = nr
-	e.mu.Lock()
-	e.anns = nil
-	e.mu.Unlock()
-}
-
-func c06GenIngest(rt *rapid.T) c06IngestCase {
-	var c c06IngestCase
-	pick := func(pool []string, label string, max int) []string {
-		n := rapid.IntRange(0, max).Draw(rt, label+"-n")
-		var out []string
-		for i := 0; i < n; i++ {
-			out = append(out, rapid.SampledFrom(pool).Draw(rt, label))
-		}
-		return out
-	}
-	c.Cfg.Block = pick([]string{"127.0.0.2/32", "127.0.0.3/32", "::1/128", "127.0.0.0/8", "127.0.0.0/31", "127.0.0.2/31", "10.0.0.0/8", "::ffff:127.0.0.2/128", "fe80::/10", "127.0.0.4/32", "127.0.0.1/32"}, "block", 3)
-	if rapid.IntRange(0, 9).Draw(rt, "allowp") < 3 {
-		c.Cfg.Allow = pick([]string{"127.0.0.1/32", "127.0.0.0/30", "::1/128", "127.0.0.0/8", "127.0.0.3/32", "127.0.0.4/31"}, "allow", 2)
-	}
-	if rapid.IntRange(0, 9).Draw(rt, "domp") < 3 {
-		c.Cfg.Domains = pick([]string{`^rebind\.`, "blocked", "^$", ":", `^127\.`}, "dom", 2)
-	}
-	c.V6 = rapid.Bool().Draw(rt, "v6")
-	ans := func(label string, v6 bool) []string {
-		pool := []string{"127.0.0.1", "127.0.0.1", "127.0.0.2", "127.0.0.3", "127.0.0.4", "127.0.0.4", "127.0.0.5"}
-		if v6 {
-			pool = []string{"::1", "::1", "::ffff:127.0.0.2", "::ffff:127.0.0.1"}
-		}
-		return pick(pool, label, 2)
-	}
-	ne := rapid.IntRange(1, 3).Draw(rt, "nepochs")
-	for i := 0; i < ne; i++ {
-		c.Script.Epochs = append(c.Script.Epochs, c06Epoch{AMode: "answer", A: ans("a", false), AAAAMode: "answer", AAAA: ans("aaaa", true)})
-	}
-	hosts := []string{
-		"127.0.0.1", "127.0.0.2", "127.0.0.3", "[::1]", "[::ffff:127.0.0.1]", "[::ffff:7f00:2]", "[0:0:0:0:0:0:0:1]", "[::1%lo]", "[::ffff:127.0.0.1%lo]", "[127.0.0.1]", "127.0.0.01", "127.1",
-		"rebind.example.test", "rebind.example.test", "a.example.test", "a.example.test", "blocked.example.test", "REBIND.example.test", "", "[]",
-		"127.0.0.4", "[::ffff:127.0.0.5]", "rebind.example.test", "a.example.test",
-	}
-	n := 1
-	if rapid.IntRange(0, 4).Draw(rt, "repeat") == 0 {
-		n = 2
-	}
-	for i := 0; i < n; i++ {
-		h := rapid.SampledFrom(hosts).Draw(rt, "host")
-		p := "{P}"
-		if rapid.IntRange(0, 9).Draw(rt, "padport") == 0 {
-			p = "0{P}"
-		}
-		c.Coverts = append(c.Coverts, h+":"+p)
-	}
-	return c
-}
-
-func c06CheckIngest(t vh.Fataler, rec *vh.Rec, e *vEnv, d *c06DNS, ls *c06Listeners, c c06IngestCase) {
-	port := fmt.Sprint(ls.port)
-	c06ResetRegistry(e)
-	e.rm.RegConfig = c.Cfg.regConfig()
-	d.reset(c.Script)
-	if _, hp := ls.drain(); hp != "" {
-		t.Fatalf("harness problem: %s", hp)
-	}
-
-	type sub struct {
-		covert string
-		reg    *DecoyRegistration
-		served []c06Query
-	}
-	var subs []sub
-	var classes []string
-	for _, tmpl := range c.Coverts {
-		covert := strings.ReplaceAll(tmpl, "{P}", port)
-		w := vWrapper(vSecret(6), pb.TransportType_Min, 0, covert, !c.V6, c.V6, 4, 957, pb.RegistrationSource_API, net.ParseIP("198.51.100.7").To4())
-		reg, err := e.rm.NewRegistrationC2SWrapper(w, c.V6)
-		if err != nil {
-			t.Fatalf("harness problem: cannot build registration: %v", err)
-		}
-		before := len(d.snapshot())
-		e.rm.ingestRegistration(reg)
-		if hp := d.quiesce(); hp != "" {
-			t.Fatalf("harness problem: %s", hp)
-		}
-		subs = append(subs, sub{covert, reg, d.snapshot()[before:]})
-	}
-	if len(subs) > 1 {
-		classes = append(classes, "ingest:repeated-registration")
-	}
-	nAfterIngest := len(d.snapshot())
-
-	// the registration the station finds for this phantom when the client connects
-	tr := e.rm.registeredDecoys.transports[subs[0].reg.Transport]
-	id := tr.GetIdentifier(subs[0].reg)
-	var stored *DecoyRegistration
-	if r, ok := e.rm.GetRegistrations(subs[0].reg.PhantomIp)[id]; ok {
-		stored = r.(*DecoyRegistration)
-	}
-	which := -1
-	for i := range subs {
-		if subs[i].reg == stored {
-			which = i
-		}
-	}
-	fail := func(key, format string, a ...any) {
-		rec.Case(true, vh.Digest(c), c, append(classes, c.Labels...)...)
-		rec.Violation(t, key, c, format, a...)
-	}
-	if stored != nil && which < 0 {
-		t.Fatalf("harness problem: the valid registration is none of the submitted ones")
-	}
-	var v c06Verdict
-	if stored == nil {
-		classes = append(classes, "ingest:no-valid-registration")
-		// nothing will be dialled; only the must-accept direction can be violated, for the first registration
-		v = c06Judge(subs[0].covert, c.Cfg, "", subs[0].served)
-	} else {
-		classes = append(classes, "ingest:valid-registration")
-		v = c06Judge(subs[which].covert, c.Cfg, stored.Covert, subs[which].served)
-	}
-	classes = append(classes, v.Classes...)
-	classes = append(classes, c06ScriptClasses(c.Script, d.snapshot())...)
-	if v.Key == "harness" {
-		t.Fatalf("harness problem: %s", v.Msg)
-	}
-	if v.Key != "" {
-		fail(v.Key, "after ingestRegistration (coverts %q): %s", c.Coverts, v.Msg)
-		return
-	}
-	if stored == nil {
-		rec.Case(v.Nontriv, vh.Digest(c), c, append(classes, c.Labels...)...)
-		return
-	}
-
-	// the dial: only towards loopback listeners the harness owns
-	ap, err := netip.ParseAddrPort(stored.Covert)
-	if err != nil {
-		t.Fatalf("harness problem: judged literal %q does not parse", stored.Covert)
-	}
-	want, dead := -1, false
-	for i, ip := range c06LoopIPs {
-		if netip.MustParseAddr(ip) == c06Plain(ap.Addr()) {
-			want = i
-		}
-	}
-	for _, ip := range c06DeadIPs {
-		if netip.MustParseAddr(ip) == c06Plain(ap.Addr()) {
-			dead = true
-		}
-	}
-	if (want < 0 && !dead) || int(ap.Port()) != ls.port {
-		classes = append(classes, "dial:skipped-not-a-listener")
-		rec.Case(true, vh.Digest(c), c, append(classes, c.Labels...)...)
-		return
-	}
-	cl, sv := net.Pipe()
-	sv.Close() // the client side is gone at once: Proxy dials, then both half pipes end
-	Proxy(stored, cl, e.rm.Logger)
-	cl.Close()
-	if hp := d.quiesce(); hp != "" {
-		t.Fatalf("harness problem: %s", hp)
-	}
-	got, hp := ls.drain()
-	if hp != "" {
-		t.Fatalf("harness problem: %s", hp)
-	}
-	isName := false
-	if h, _, ok := c06Split(subs[which].covert); ok {
-		_, err := netip.ParseAddr(h)
-		isName = err != nil
-	}
-	if dead {
-		classes = append(classes, "dial:refused")
-		if isName {
-			classes = append(classes, "dial:refused-name-pinned")
-			if len(c.Script.Epochs) > 1 {
-				classes = append(classes, "dial:refused-name-pinned-answers-change")
-			}
-		}
-	} else {
-		classes = append(classes, "dial:performed")
-		if subs[which].covert != stored.Covert {
-			classes = append(classes, "dial:after-rewrite")
-		}
-	}
-	if n := len(d.snapshot()); n != nAfterIngest {
-		fail("covert:lookup-after-admission", "coverts %q: %d DNS queries were made after admission, while dialling %q: %v", c.Coverts, n-nAfterIngest, stored.Covert, d.snapshot()[nAfterIngest:])
-		return
-	}
-	if dead {
-		if len(got) != 0 {
-			var where []string
-			for _, g := range got {
-				where = append(where, c06LoopIPs[g.Listener])
-			}
-			fail("covert:dial-mismatch", "coverts %q admitted as %q, where nothing listens; after the refused dial Proxy connected to %v (the only address it may dial is the one that was checked)", c.Coverts, stored.Covert, where)
-			return
-		}
-		rec.Case(true, vh.Digest(c), c, append(classes, c.Labels...)...)
-		return
-	}
-	if len(got) != 1 || got[0].Listener != want {
-		var where []string
-		for _, g := range got {
-			where = append(where, c06LoopIPs[g.Listener])
-		}
-		fail("covert:dial-mismatch", "coverts %q admitted as %q, but Proxy connected to %v (expected exactly one connection to %s)", c.Coverts, stored.Covert, where, c06LoopIPs[want])
-		return
-	}
-	rec.Case(true, vh.Digest(c), c, append(classes, c.Labels...)...)
-}
-
-func TestVerif_C06_ingest(t *testing.T) {
-	rec := vh.NewRec("C06", "ingest", "rapid: 1-2 registrations of one client secret (covert = literal in several textual forms / host name / empty host, port = the port of loopback listeners on 127.0.0.1-3 and ::1; 127.0.0.4-5 have no listener on that port, so the dial of a covert pinned there is refused) x configuration over loopback subnets x resolver script whose answers change between lookups; ingestRegistration on a RegistrationManager with the real transports, then the registration found for the phantom is handed to Proxy. Oracle: the stored Covert is judged like a ParseOrResolveBlocklisted result against the covert of the registration that became valid and the DNS queries served during its ingest; a canonical permitted covert must yield a valid registration with the covert unchanged; Proxy connects exactly once, to the listener whose address is the stored literal, and makes no DNS query; when the stored literal refuses the connection Proxy connects nowhere and still makes no DNS query (no fall-back to another address of the name). Non-trivial: every case with a valid registration or a forbidden input. Distinct by case")
-	defer rec.Flush()
-	rec.Require("ingest:valid-registration", "ingest:no-valid-registration", "ingest:repeated-registration", "dial:performed", "dial:after-rewrite",
-		"dial:refused", "dial:refused-name-pinned", "dial:refused-name-pinned-answers-change",
-		"out:name-accepted", "dns:answers-change-between-lookups", "cfg:allowlist", "in:literal-forbidden")
-	d := c06InstallResolver(t)
-	ls := c06Listen(t)
-	e := vNewEnv(t, nil, "")
-	var c c06IngestCase
-	if c06Replay(t, &c) {
-		c06CheckIngest(t, rec, e, d, ls, c)
-		return
-	}
-	rapid.Check(t, func(rt *rapid.T) {
-		c06CheckIngest(rt, rec, e, d, ls, c06GenIngest(rt))
 	})
 }
